@@ -8,6 +8,7 @@ package raft
 
 import (
 	"fmt"
+	"math/rand"
 	"sort"
 	"testing/synctest"
 	"time"
@@ -114,7 +115,9 @@ func (c *cluster) apply(a vAct) {
 	}
 	switch a.A {
 	case "init":
-		// K voters with pre-seeded configuration, L = extra provisioned (empty) nodes
+		// K voters with pre-seeded configuration, L = extra provisioned (empty) nodes,
+		// T = seed of the nodes' randomised timers
+		c.rng = rand.New(rand.NewSource(a.T))
 		nodes := map[uint64]Node{}
 		for i := 1; i <= a.K; i++ {
 			id := uint64(i)
